@@ -83,6 +83,67 @@ theorem result_roundtrip (r : Result) (hc : r.cls ∈ resultClasses) (td : PyVal
     roundTrip_safe_aux _ h4, roundTrip_safe_aux _ h5, roundTrip_safe_aux _ h6, roundTrip_safe_aux _ h7,
     roundTrip_safe_aux _ h8]
 
+/-! ## the second loader (`csep.load_json` / `FileSystem.load`) and the in-memory pair -/
+
+/-- C18: on every file, whatever it holds (NaN, ±Infinity, null, nested arrays), `csep.load_json(cls, f)` reads the nine
+    fields exactly as `csep.load_evaluation_result(f)` does; the two loaders differ only in where the class comes from
+    (argument vs stored 'type'), and agree when the argument is the class the factory maps the stored type to. -/
+theorem loaders_agree (c : String) (j : JResult) (h : factory j.type = some c) : load j = some (loadAs c j) := by
+  simp [load, loadAs, h]
+
+/-- … in particular on every file written from a result of a known class, read back as that class -/
+theorem loaders_agree_on_written (r : Result) (hc : r.cls ∈ resultClasses) (j : JResult) (hw : write r = some j) :
+    load j = some (loadAs r.cls j) := by
+  apply loaders_agree
+  unfold write at hw
+  cases htd : tdList r.testDistribution with
+  | none => simp [htd] at hw
+  | some td =>
+    simp only [htd, Option.map_some, Option.some.injEq] at hw
+    subst hw
+    exact factory_total r.cls hc
+
+/-- C18 through the second loader: a result whose fields have safe kinds — infinite and NaN statistics included, they
+    are `F64` payloads like any other — is written and read back by `csep.load_json(cls, f)` with every field equal
+    (normal form), for ANY class name handed to the loader (no factory involved). -/
+theorem load_json_roundtrip (r : Result) (td : PyVal)
+    (htd : tdList r.testDistribution = some td) (h0 : Safe r.testDistribution)
+    (h1 : Safe r.name) (h2 : Safe r.observedStatistic) (h3 : Safe r.quantile) (h4 : Safe r.status)
+    (h5 : Safe r.obsCatalogRepr) (h6 : Safe r.simName) (h7 : Safe r.obsName) (h8 : Safe r.minMw) :
+    (write r).map (loadAs r.cls) = some (normResult r td) := by
+  have hs := tdList_safe htd h0
+  simp only [write, htd, Option.map_some, loadAs, normResult]
+  rw [roundTrip_safe_aux td hs, roundTrip_safe_aux _ h1, roundTrip_safe_aux _ h2, roundTrip_safe_aux _ h3,
+    roundTrip_safe_aux _ h4, roundTrip_safe_aux _ h5, roundTrip_safe_aux _ h6, roundTrip_safe_aux _ h7,
+    roundTrip_safe_aux _ h8]
+
+/-- non-finite values are not special: −inf, +inf and NaN as statistic, quantile entry or distribution entry come back
+    as the same float through either loader -/
+theorem nonfinite_survive (x : F64) :
+    roundTrip (.npFloat64 x) = .pyFloat x ∧ roundTrip (.pyFloat x) = .pyFloat x ∧
+    roundTrip (.tuple (.cons (.npFloat64 x) (.cons (.pyFloat .nan) .nil))) =
+      .list (.cons (.pyFloat x) (.cons (.pyFloat .nan) .nil)) ∧
+    roundTrip (.pyFloat x) ≠ .none := by
+  refine ⟨rfl, rfl, rfl, ?_⟩
+  simp [roundTrip, toJson, fromJson]
+
+/-- the in-memory pair `cls.from_dict(r.to_dict())` keeps every field as it is (no JSON normalisation) and replaces
+    `test_distribution` by its list form; it fails exactly when `to_dict` does -/
+theorem from_dict_to_dict (r : Result) :
+    (fromDictToDict r = none ↔ tdList r.testDistribution = none) ∧
+    ∀ r', fromDictToDict r = some r' → r'.cls = r.cls ∧ r'.name = r.name ∧ r'.observedStatistic = r.observedStatistic ∧
+      r'.quantile = r.quantile ∧ r'.status = r.status ∧ r'.minMw = r.minMw ∧
+      tdList r.testDistribution = some r'.testDistribution := by
+  unfold fromDictToDict
+  cases h : tdList r.testDistribution with
+  | none => simp
+  | some td =>
+    refine ⟨by simp, ?_⟩
+    intro r' hr
+    simp only [Option.map_some, Option.some.injEq] at hr
+    subst hr
+    exact ⟨rfl, rfl, rfl, rfl, rfl, rfl, rfl⟩
+
 /-- a non-numeric `test_distribution` that is a bare string (w_test stores 'normal') is NOT preserved: to_dict turns
     it into the list of its characters.  (The property only speaks about numeric distributions.) -/
 theorem string_distribution_split :
